@@ -164,11 +164,13 @@ class Lst:
 
     def __init__(self, w: Optional[World] = None) -> None:
         self.added: List[str] = []
+        self.live: set = set()
         self.w = w
         self.lookup_errors: List[str] = []
 
     def add_service(self, zc: Any, t: str, n: str) -> None:
         self.added.append(n)
+        self.live.add(n.lower())
         if self.w is None:
             return
         from zeroconf import BadTypeInNameException
@@ -185,7 +187,7 @@ class Lst:
                 self.lookup_errors.append(f"lookup of {n!r} raised {type(e).__name__}: {e}")
 
         self.w.spawn(look())
-    def remove_service(self, zc: Any, t: str, n: str) -> None: pass
+    def remove_service(self, zc: Any, t: str, n: str) -> None: self.live.discard(n.lower())
     def update_service(self, zc: Any, t: str, n: str) -> None: pass
 
 
@@ -233,6 +235,8 @@ def canary(w: World, host: Any, lst: Lst, problems: List[str]) -> None:
         problems.append("canary: a well-formed query sent afterwards was not answered within 2 s")
     if CANARY_INST not in [n.lower() for n in lst.added]:  # (an instance reported before in other letter case is the same one)
         problems.append("canary: an announcement sent afterwards did not reach the browser")
+    elif CANARY_INST not in lst.live:
+        problems.append("canary: after the announcement sent afterwards the browser's last word on the instance is Removed")
     if lst.lookup_errors:
         problems.append(f"exception: {lst.lookup_errors[0][:300]}")
 
@@ -449,6 +453,38 @@ def run_reentrant(item: Tuple[str, int, str, str]) -> Tuple[Optional[str], str]:
     return (problems[0] if problems else None), f"reentrant:{'bad' if problems else 'ok'}"
 
 
+def self_datagrams() -> List[bytes]:
+    """Valid traffic about the canary instance itself (it was there before, goes, comes back - in separate datagrams or in
+    one), none of them byte-identical to the canary announcement."""
+    c = ("PTR", "_c._tcp.local.", 1)
+    return [wire.response([c + (4500, CANARY_INST)]), wire.response([c + (0, CANARY_INST)]),
+            wire.response([c + (0, CANARY_INST), c + (4500, CANARY_INST)]),
+            wire.response([c + (4500, CANARY_INST), c + (0, CANARY_INST)]),
+            wire.response([c + (120, CANARY_INST), c + (4500, CANARY_INST)])]
+
+
+def self_points() -> List[Tuple[int, ...]]:
+    n = len(self_datagrams())
+    return [seq for k in (1, 2, 3) for seq in itertools.product(range(n), repeat=k)]
+
+
+def run_self(item: Tuple[int, ...]) -> Tuple[Optional[str], str]:
+    problems: List[str] = []
+    ds = self_datagrams()
+    with World(rand=RandPolicy.const(0.0)) as w:
+        host, lst = busy_world(w)
+        for k, i in enumerate(item):
+            data = bytearray(ds[i])
+            struct.pack_into(">H", data, 0, 0x5E00 + k)  # (distinct bytes per occurrence: the duplicate guard is C16's)
+            deliver(w, host, bytes(data), ("10.0.0.93", 5353))
+            w.advance(1300)
+        excs = w.exceptions()
+        if excs:
+            problems.append(f"exception: {excs[0][:300]}")
+        canary(w, host, lst, problems)
+    return (problems[0] if problems else None), f"self:{'bad' if problems else 'ok'}"
+
+
 def run_stream(item: Tuple[List[Tuple[str, bytes]], int]) -> Tuple[Optional[str], str]:
     """One busy world, a stream of datagrams with clock steps between them."""
     chunk, variant = item
@@ -529,6 +565,11 @@ def run(tier: str, seed: int) -> Tuple[Stats, str, List[str], Dict[str, Any]]:
         record(problem, oc, {"mode": "valid", "item": [list(item[0]), item[1], list(item[2])], "n": 6,
                              "what": f"five well-formed queries {item[0]} ms apart, last {item[1]}, jitter draws {item[2]}"})
     sizes["valid_schedules"] = len(vs)
+    sp = self_points()
+    for item, (problem, oc) in zip(sp, pmap_iter(guarded_problem(run_self), sp, chunk=8)):
+        record(problem, oc, {"mode": "self", "item": list(item), "n": len(item),
+                             "what": f"datagrams {list(item)} of the canary instance's own history (announce, goodbye, both in one)"})
+    sizes["canary_history"] = len(sp)
     rp = reentrant_points()
     for item, (problem, oc) in zip(rp, pmap_iter(guarded_problem(run_reentrant), rp, chunk=8)):
         record(problem, oc, {"mode": "reentrant", "item": list(item), "n": 2,
@@ -572,6 +613,8 @@ def replay(data: Dict[str, Any]) -> int:
         problem, oc = run_cancel(tuple(data["item"]))
     elif data.get("mode") == "train":
         problem, oc = run_train(tuple(data["item"]))
+    elif data.get("mode") == "self":
+        problem, oc = run_self(tuple(data["item"]))
     elif data.get("mode") == "reentrant":
         problem, oc = run_reentrant(tuple(data["item"]))
     elif data.get("mode") == "valid":
